@@ -4,6 +4,7 @@
 -/
 import Model.WireLemmas
 import Model.Pool
+import Model.InprocPipe
 namespace Props.C01
 open Model Model.Wire
 
@@ -125,5 +126,24 @@ theorem free_inv (P : Pool.Params) (wf : Pool.WellFormed P) (s : Pool.State) (hi
 example : decode (.or (.lt (.var "sz") (.lit 0)) (.and (.gt (.var "maxrx") (.lit 0)) (.gt (.var "sz") (.var "maxrx"))))
     false 64 (encode false ⟨[1,2,3,4], List.replicate 60 7⟩ ++ [9]) = .msg ([1,2,3,4] ++ List.replicate 60 7) [9] := by
   decide
+
+/-! ### inproc: no bytes on a wire, two channels (`Model/InprocPipe.lean`, machine `m.ipipe`) -/
+
+/-- over an inproc connection, in every state reachable by any history of Sends, Recvs and Closes at either end,
+    whichever parked call the runtime lets meet a newcomer: the messages Recv returned are exactly the messages whose
+    Send returned nil — in each direction, once each, in that order, as header followed by body -/
+theorem inproc_pipe_delivers_what_was_sent (s : InprocPipe.State) (hr : InprocPipe.Reach s) : s.recvd = s.sent :=
+  (InprocPipe.reach_inv hr).same
+
+/-- … and nothing that could be delivered is left waiting: a parked Send and a parked Recv never face each other -/
+theorem inproc_pipe_never_sits_on_a_message (s : InprocPipe.State) (hr : InprocPipe.Reach s) :
+    ∀ x ∈ s.parkedSend, ∀ r ∈ s.parkedRecv, x.1 ≠ r.1 := (InprocPipe.reach_inv hr).quiet
+
+/-- non-vacuity: a Recv waits, the Send meets it; a second Send waits and is failed by the other end's Close -/
+example :
+    let run := fun (s : InprocPipe.State) (o : InprocPipe.Op) => ((InprocPipe.step s o).headD (s, [])).1
+    let s := [InprocPipe.Op.recv 0 1, .send 0 2 [0x80, 0, 0, 1] [7, 8], .send 1 3 [] [9]].foldl run InprocPipe.init
+    s.recvd = [(0, [0x80, 0, 0, 1, 7, 8])] ∧ s.sent = s.recvd ∧ s.parkedSend = [(1, 3, [9])] ∧
+    ((InprocPipe.step s (.close 0)).headD (s, [])).2 = ["res:ok", "ret:3:closed"] := by decide
 
 end Props.C01
